@@ -16,9 +16,10 @@ def run(ctx) -> None:
     for name, fn in (("T1", codec.rule_T1), ("T2", codec.rule_T2), ("T2b", codec.rule_T2b), ("T3", codec.rule_T3), ("T4", codec.rule_T4), ("T5", codec.rule_T5), ("Z1", codec.rule_Z1), ("T6", codec.rule_T6), ("T7", codec.rule_T7), ("T8", codec.rule_T8)):
         ctx.rules_run.append(name)
         fn(ctx)
-    from .c15 import rule_Q1, rule_Q2, rule_Q6
-    ctx.rules_run += ["Q1", "Q2", "Q6"]
-    rule_Q1(ctx)            # Timestamp / Duration fields round-trip only if the (seconds, nanos) split is exact
+    from .c15 import rule_Q1, rule_Q1b, rule_Q2, rule_Q6
+    ctx.rules_run += ["Q1", "Q1b", "Q2", "Q6"]
+    rule_Q1(ctx)
+    rule_Q1b(ctx)            # Timestamp / Duration fields round-trip only if the (seconds, nanos) split is exact
     rule_Q2(ctx)
     rule_Q6(ctx)            # every well-known-type / wrapper payload is decoded into a message of its own (parse() merges)
     from .c14 import rule_V10
